@@ -1,4 +1,5 @@
 import Model.Session
+import Driver.Pure
 /-! Line protocol of the sequential session port (model side). -/
 namespace Driver
 open Model
@@ -177,6 +178,14 @@ def sessStep (s : S) (f : List String) : S × List String :=
     | none => (s, ["bad-op bufsize"])
   | ["sgate"] => (s, ["unsupported slow Save of the Persistence"])
   | ["sgo"] => (s, ["unsupported slow Save of the Persistence"])
+  | ["cfgx", ka, user, pass, wt, wm, ret, alo, eo] =>
+    -- the rest of the Config (all of it goes into CONNECT) for the sessions that follow
+    match ka.toNat?, ofHex user, optHex pass, ofHex wt, optHex wm with
+    | some ka, some user, some pass, some wt, some wm =>
+      let w : Will := { topic := wt, message := wm, retain := ret == "1", atLeastOnce := alo == "1", exactlyOnce := eo == "1" }
+      let c : Cfg := { s.cfg with userName := user, password := pass, keepAlive := ka, will := w }
+      ({ s with cfg := c }, [])
+    | _, _, _, _, _ => (s, ["bad-op cfgx"])
   | ["initx", cid, variant] =>
     -- InitSession with a Config it must refuse: nothing is stored, the state stays as it was
     let base : Cfg := { atLeastOnceMax := 4, exactlyOnceMax := 4 }
@@ -199,7 +208,7 @@ def sessStep (s : S) (f : List String) : S × List String :=
     let _ := op
     match ofHex cid, m1.toInt?, m2.toInt? with
     | some cid, some m1, some m2 =>
-      let cfg : Cfg := { cleanSession := clean == "1", atLeastOnceMax := m1, exactlyOnceMax := m2 }
+      let cfg : Cfg := { s.cfg with cleanSession := clean == "1", atLeastOnceMax := m1, exactlyOnceMax := m2 }
       match s.initSession cid cfg with
       | (s, none) => done s ["init ok"] false
       | (s, some e) => done s [s!"init err {errStr e}"] false
@@ -207,7 +216,7 @@ def sessStep (s : S) (f : List String) : S × List String :=
   | ["adopt", clean, m1, m2] =>
     match m1.toInt?, m2.toInt? with
     | some m1, some m2 =>
-      let cfg : Cfg := { cleanSession := clean == "1", atLeastOnceMax := m1, exactlyOnceMax := m2 }
+      let cfg : Cfg := { s.cfg with cleanSession := clean == "1", atLeastOnceMax := m1, exactlyOnceMax := m2 }
       match s.adoptSession cfg with
       | (s, .ok ws) => done s ["adopt ok " ++ (if ws.isEmpty then "-" else ";".intercalate (ws.map warnStr))] false
       | (s, .error e) => done s [s!"adopt fatal {errStr e}"] false
